@@ -222,11 +222,14 @@ func genCase(r *vh.Rand, id string, size int) string {
 	if r.Chance(1, 4) {
 		g.clients[0].id = 1<<64 - 1
 	}
-	g.cc(0, 1, "a1")
-	g.cc(0, 2, "a2")
-	if !r.Chance(1, 30) {
-		g.ops = append(g.ops, "b")
-	}
+	// the bootstrap membership: two Initialize config changes that are always accepted, so
+	// that no save / stream is ever asked of a replica whose membership is still empty
+	// (getSSMeta answers that with its `empty membership` panic; the last voter can not be removed)
+	g.entry(fmt.Sprintf("c 0 1 %s 0 1", vh.Hex([]byte("a1"))))
+	g.lastCC = g.nEntries
+	g.entry(fmt.Sprintf("c 0 2 %s 0 1", vh.Hex([]byte("a2"))))
+	g.lastCC = g.nEntries
+	g.ops = append(g.ops, "b")
 	savedSince := false
 	for i := 0; i < size; i++ {
 		switch x := r.Intn(100); {
